@@ -183,6 +183,9 @@ class Axiom(Item):
                 self.vars = context.ctxt.vars
                 self.prop = parser.parse_term(data['prop'])
 
+            if self.prop.checked_get_type() != BoolType:
+                raise ItemException("Theorem %s: statement is not of type bool" % self.name)
+
             # theorem does not already exist
             if theory.thy.has_theorem(self.name):
                 raise ItemException("Theorem %s: theorem already exists")
@@ -568,6 +571,9 @@ class Inductive(Item):
             for rule in data['rules']:
                 with context.fresh_context(defs={self.name: self.type}):
                     prop = parser.parse_term(rule['prop'])
+
+                if prop.checked_get_type() != BoolType:
+                    raise ItemException("Inductive %s: rule %s is not of type bool" % (self.name, rule['name']))
 
                 # Test conclusion of the prop
                 _, concl = prop.strip_implies()
